@@ -293,6 +293,7 @@ func corrC09(r *Run) {
 	waitTables := tablePerturbTest(r, "detect", "charsets")
 	defer waitTables()
 	codecHistoryTests(r, "C09", r.N(90, 1500), r.N(14, 100))
+	coldFirstCallTests(r, "C09")
 
 	// ---- 1. exhaustive: every scalar value as a one-character text
 	for _, det := range []struct {
@@ -421,6 +422,9 @@ func corrC09(r *Run) {
 	}
 	cx.checkHistory(8, []byte{0, 'h', 0, 'i'}, true, []string{"hello yourself"}, "history corpus: received message reused")
 	cx.checkHistory(0xF5, []byte("8-bit"), true, []string{"ok", "Жук"}, "history corpus: received message reused")
+	// a value that carries a user-data header (a part made by ComposeMultipartShortMessage, a decoded segment) is filled in
+	// again with Compose
+	cx.checkValueWithHeader()
 	drawText := func(p pool) string {
 		ln := r.Rng.Intn(24)
 		if r.Rng.Intn(5) == 0 {
@@ -842,4 +846,118 @@ func presetOrMsg(use bool, b []byte) []byte {
 		return b
 	}
 	return nil
+}
+
+// ---------------------------------------------------------------- Compose on a value that carries a user-data header
+// ShortMessage.Compose writes DataCoding and Message and does not touch UDHeader.  What C09 requires of such a call is what
+// it requires of any: the stored label and octets parse back to the text - on the value itself, and at a receiver that reads
+// the octets WriteTo produces with the user-data-header indicator the value implies (header present iff UDHeader != nil).
+// Whether Compose keeps or drops the old header is not prescribed (both are counted); header + text beyond 140 octets is
+// recorded as a note (C09 claims nothing about it; C07 speaks of ComposeMultipartShortMessage only).
+func (cx *c09ctx) checkValueWithHeader() {
+	r := cx.r
+	type preset struct {
+		what string
+		make func() (pdu.ShortMessage, bool)
+	}
+	presets := []preset{
+		{"a part made by ComposeMultipartShortMessage (GSM 7-bit, 16-bit reference)", func() (pdu.ShortMessage, bool) {
+			ps, err := pdu.ComposeMultipartShortMessage(strings.Repeat("part of a long message ", 12), coding.GSM7BitCoding, 0x1234)
+			return firstPart(ps, err, 1)
+		}},
+		{"the last part made by ComposeMultipartShortMessage (UCS-2, 8-bit reference)", func() (pdu.ShortMessage, bool) {
+			ps, err := pdu.ComposeMultipartShortMessage(strings.Repeat("Привет, мир! ", 14), coding.UCS2Coding, 7)
+			return firstPart(ps, err, -1)
+		}},
+		{"a decoded segment (data_coding 8, concatenation header, UCS-2 octets)", func() (pdu.ShortMessage, bool) {
+			m := pdu.ShortMessage{UDHeader: pdu.UserDataHeader{}}
+			frame := []byte{8, 0, 10, 5, 0, 3, 0x55, 2, 1, 0, 'h', 0, 'i'}
+			_, err := m.ReadFrom(bytes.NewReader(frame))
+			return m, err == nil && len(m.UDHeader) == 1
+		}},
+		{"a decoded message with an application port header (data_coding 0xF5)", func() (pdu.ShortMessage, bool) {
+			m := pdu.ShortMessage{UDHeader: pdu.UserDataHeader{}}
+			frame := []byte{0xF5, 0, 11, 6, 5, 4, 0x23, 0xF0, 0, 0, 1, 2, 3, 4}
+			_, err := m.ReadFrom(bytes.NewReader(frame))
+			return m, err == nil && len(m.UDHeader) == 1
+		}},
+	}
+	texts := []string{"ok", "hello yourself", "Жук", "日本語", "\U0001F48A", strings.Repeat("a", 160), strings.Repeat("é", 140), strings.Repeat("я", 70), "abcdefg\r", strings.Repeat("x", 161)}
+	over := 0
+	for _, ps := range presets {
+		for ti, t := range texts {
+			m, ok := ps.make()
+			if !ok {
+				r.Notes = append(r.Notes, "preset could not be built: "+ps.what)
+				break
+			}
+			before := fmt.Sprintf("%v", m.UDHeader)
+			in := fmt.Sprintf("compose-with-header %d %s", ti, hex.EncodeToString([]byte(t)))
+			in = fmt.Sprintf("compose-on-value-with-header [%s] %s", ps.what, hex.EncodeToString([]byte(t)))
+			r.Count(in, true, "Compose on a value that carries a user-data header")
+			var err error
+			pan, _ := guard(func() { err = m.Compose(t) })
+			runes := []rune(t)
+			switch {
+			case pan:
+				r.Fail("compose-history/panic", "Compose panicked on a value that carries a user-data header", in, "panic", "a message or an error")
+				continue
+			case isTooLarge(err):
+				r.Case(in, fmt.Sprintf("compose_obs_ok %s (Err ESize)", coqRunes(runes)))
+				continue
+			case err != nil:
+				r.Case(in, fmt.Sprintf("compose_obs_ok %s (Err EText)", coqRunes(runes)))
+				continue
+			}
+			r.Case(in, fmt.Sprintf("compose_obs_ok %s (Ok (%d, %s))", coqRunes(runes), byte(m.DataCoding), coqHex(m.Message)))
+			if fmt.Sprintf("%v", m.UDHeader) == before {
+				r.Hist["Compose on a value with a header: header kept"]++
+			} else {
+				r.Hist["Compose on a value with a header: header changed or dropped"]++
+			}
+			name := labelName(coding.BestCoding(t))
+			back, perr := m.Parse()
+			crClass := m.DataCoding == coding.GSM7BitCoding && strings.HasSuffix(t, "\r") && back == t[:len(t)-1] && gsm7SeptetCount(t)%8 == 0
+			if perr != nil || (back != t && !crClass) {
+				r.Fail("compose-history/"+name+"/value-with-header-parses-to-different-text", "after Compose on a value that carries a user-data header the stored label and octets parse back to a different text",
+					in, fmt.Sprintf("data_coding=%d octets=%x header=%v parsed=%q err=%v", byte(m.DataCoding), m.Message, m.UDHeader, back, perr), fmt.Sprintf("parsed=%q", t))
+				continue
+			}
+			// the wire: what WriteTo produces, read by a receiver that knows whether a header is present
+			var buf bytes.Buffer
+			if _, werr := m.WriteTo(&buf); werr != nil {
+				if m.UDHeader.Len()+len(m.Message) > 140 {
+					over++
+				}
+				r.Hist["Compose on a value with a header: WriteTo refuses the result"]++
+				continue
+			}
+			if m.UDHeader.Len()+len(m.Message) > 140 {
+				over++
+			}
+			var q pdu.ShortMessage
+			if m.UDHeader != nil {
+				q.UDHeader = pdu.UserDataHeader{}
+			}
+			_, rerr := q.ReadFrom(bytes.NewReader(buf.Bytes()))
+			rback, rperr := q.Parse()
+			if rerr != nil || rperr != nil || (rback != t && !crClass) || fmt.Sprintf("%v", q.UDHeader) != fmt.Sprintf("%v", m.UDHeader) && len(m.UDHeader) > 0 {
+				r.Fail("compose-history/"+name+"/value-with-header-reads-differently-from-the-wire", "the octets WriteTo produces for the composed value read back as another header or text",
+					in, fmt.Sprintf("wire=%x header=%v text=%q errs=%v/%v", buf.Bytes(), q.UDHeader, rback, rerr, rperr), fmt.Sprintf("header=%v text=%q", m.UDHeader, t))
+			}
+		}
+	}
+	if over > 0 {
+		r.Notes = append(r.Notes, fmt.Sprintf("observation outside C09: Compose on a value that carries a user-data header fits the TEXT into 140 octets; header + text exceeded 140 octets in %d of the calls (WriteTo accepts up to 255)", over))
+	}
+}
+
+func firstPart(ps []pdu.ShortMessage, err error, which int) (pdu.ShortMessage, bool) {
+	if err != nil || len(ps) < 2 {
+		return pdu.ShortMessage{}, false
+	}
+	if which < 0 {
+		return ps[len(ps)-1], true
+	}
+	return ps[which], true
 }
